@@ -9,6 +9,7 @@ package sm4
 // sequence of (instruction address, effective addresses of memory operands).
 
 import (
+	"encoding/hex"
 	"encoding/json"
 	"fmt"
 	"os"
@@ -74,6 +75,9 @@ func verifFill(b []byte, spec string, salt uint64) {
 		for i := range b {
 			b[i] = 0xaa ^ byte(i&1*0xff)
 		}
+	case len(spec) > 4 && spec[:4] == "hex:":
+		hb, _ := hex.DecodeString(spec[4:])
+		copy(b, hb)
 	case len(spec) > 4 && spec[:4] == "bit:":
 		fmt.Sscanf(spec[4:], "%d", &n)
 		for i := range b {
@@ -173,7 +177,7 @@ func TestVerif_C09_Child(t *testing.T) {
 
 func TestVerif_C09_Trace(t *testing.T) {
 	rec := stats.Get("C09", "asm-traces")
-	rec.Rule("rapid draws groups (routine, lengths[, verdict]): expandKeyAsm; cryptoBlockAsm x1/x2/x4/x8/x16 with enc and dec keys; gHashBlocks count 1..20; copyAsm; sealAsm/openAsm with plaintext/aad lengths from the kernel-combination generator (0..1100), nonce length {12,1,8,16,17,128,130}, tag 12..16, and for openAsm authentic vs forged; each group is executed with 6-8 content variants drawn from {two uniform seeds, all-00, all-FF, AA55, single bit} independently for key, nonce, aad and text, plus keys CRAFTED by running the key schedule backwards so that one round key (index 0,1,2,3,4,15,16,28..31) is 00000000 or ffffffff (and, for forged messages, different positions/values of the wrong tag byte). A ptrace single-stepper records for every executed instruction its address and the effective address of every memory operand (decoded from objdump); stack addresses are taken relative to the entry stack pointer. Oracle: within a group all traces are identical. One case = one traced call; non-trivial: every call in a group with >= 3 variants including an extreme content; distinct by (group, contents).")
+	rec.Rule("rapid draws groups (routine, lengths[, verdict]): expandKeyAsm; cryptoBlockAsm x1/x2/x4/x8/x16 with enc and dec keys; gHashBlocks count 1..20; copyAsm; sealAsm/openAsm with plaintext/aad lengths from the kernel-combination generator (0..1100), nonce length {12,1,8,16,17,128,130}, tag 12..16, and for openAsm authentic vs forged; each group is executed with 6-8 content variants drawn from {two uniform seeds, all-00, all-FF, AA55, single bit} independently for key, nonce, aad and text, plus keys CRAFTED by running the key schedule backwards so that one round key (index 0,1,2,3,4,15,16,28..31) is 00000000 or ffffffff (and, for forged messages, different positions/values of the wrong tag byte); one group in three of seal/open uses a fixed 16-byte nonce solved in GF(2^128) so that under variant 0's key the block counter wraps inside the message while under the other keys it does not. A ptrace single-stepper records for every executed instruction its address and the effective address of every memory operand (decoded from objdump); stack addresses are taken relative to the entry stack pointer. Oracle: within a group all traces are identical. One case = one traced call; non-trivial: every call in a group with >= 3 variants including an extreme content; distinct by (group, contents).")
 	t.Cleanup(stats.FlushAll)
 	if !candoAsm {
 		rec.Skipped("CPU lacks GFNI/AVX512/VPCLMULQDQ: the assembly cannot be executed here")
@@ -230,6 +234,24 @@ func TestVerif_C09_Trace(t *testing.T) {
 				base.Forge = 0
 			}
 		}
+		// counter-wrap groups: a 16-byte nonce SOLVED (for the key of variant 0) so that the 32-bit block counter wraps inside the
+		// message; every variant uses that same nonce with its own key, i.e. an ordinary counter — a branch on the counter value
+		// (which depends on the hash key, hence on the key) makes the traces differ
+		wrapNonce := ""
+		if (op == "seal" || op == "open") && base.PL >= 16 && gen.Int(t, "wrapgroup", 0, 2) == 0 {
+			base.NL = 16
+			var k0 [16]byte
+			verifFill(k0[:], "seed:1", 1)
+			j0 := make([]byte, 16)
+			verifFill(j0, "seed:3", 11)
+			j := gen.Uniform(t, "wrapdist", 0, (base.PL+15)/16-1)
+			j0[12], j0[13], j0[14], j0[15] = 0xff, 0xff, 0xff, byte(0xff-j)
+			if j > 255 {
+				j0[14], j0[15] = byte(0xff-j>>8), byte(0xff-j)
+			}
+			wrapNonce = "hex:" + hex.EncodeToString(gcmref.SolveNonce16(sm4ref.New(k0[:]), j0))
+			base.Group = fmt.Sprintf("%sAsm pt=%d aad=%d nonce=16(fixed, wraps for variant 0) tag=%d forged=%v", op, base.PL, base.AL, base.Tag, base.Forge >= 0)
+		}
 		extreme := false
 		var es []verifC09Entry
 		for v := 0; v < nv; v++ {
@@ -245,6 +267,9 @@ func TestVerif_C09_Trace(t *testing.T) {
 				e.KeyC = "rk:0:00000000" // first round key zero
 			case nv - 3:
 				e.KeyC = crafted[gen.Uniform(t, "crafted", 0, len(crafted)-1)]
+			}
+			if wrapNonce != "" {
+				e.NonceC = wrapNonce
 			}
 			if base.Forge >= 0 {
 				e.Forge = gen.Uniform(t, "forgepos", 0, 16*3-1) // tag byte (mod tag size) and xor value 1..3
